@@ -27,7 +27,7 @@ ASSUMPTIONS = [
 NSHARDS = {"quick": 16, "thorough": 16}
 N_CASES = {"quick": 1200, "thorough": 90000}   # per shard
 REQUIRE = {"outcome:oom": 200, "outcome:ok": 200, "zero_tick_operators": 50, "multi_segment_operators": 100,
-           "compared_ticks": 20000, "ambiguous_cases_resolved": 5, "retried_containers": 300, "retries_succeeded": 100, "neighbour_cases:cancel": 300, "neighbour_cases:random": 100}
+           "compared_ticks": 20000, "ambiguous_cases_resolved": 5, "retried_containers": 300, "retries_succeeded": 100, "neighbour_cases:cancel": 300, "neighbour_cases:random": 100, "alloc_class:long-lived": 8}
 for _l in LAWS:
     REQUIRE["law:" + _l] = 50
 
@@ -190,11 +190,30 @@ class RetryDriver:
         return {"sus": [], "asg": []}
 
 
+def long_container_case(rng):
+    """One container that lives for thousands of ticks (many operators and segments, long phases)."""
+    tps = rng.choice([10, 100, 1000])
+    cpus = rng.choice([1, 2, 4])
+    nops = rng.choice([4, 6])
+    ops = []
+    for k in range(nops):
+        segs = [gen.make_seg(rng, tps, cpus, "safe", mem_ref=2.0, maxn=rng.choice([300, 900])) for _ in range(rng.choice([1, 2, 3]))]
+        ops.append({"parents": [k - 1] if k else [], "segs": segs})
+    peak = max(gen.ops_peak(ops), 0.01)
+    ram = peak * rng.choice([0.98, 1.0, 1.5])
+    return {"kind": "single", "world": {"pools": 1, "cpus": 64, "ram": max(ram * 2, 1.0), "tps": tps, "multi": True, "overcommit": False},
+            "pipelines": [{"pid": "p0", "prio": "BATCH_PIPELINE", "ops": ops}],
+            "steps": [{"sus": [], "asg": [{"pool": 0, "cpu": cpus, "ram": ram, "ops": [[0, i] for i in range(nops)]}]}],
+            "drain": 40000, "_alloc_class": "long-lived"}
+
+
 def cases(tier, seed, shard, nshards):
     if shard == 0:
         for d in DIRECTED:
             yield directed_case(d)
     rng = rng_for(ID, seed, shard)
+    for _l in range(1 if tier == "quick" else 6):
+        yield long_container_case(rng)
     for i in range(N_CASES[tier]):
         yield make_case(rng, i)
         if i % 6 == 0:
